@@ -13,20 +13,20 @@ def put(path, content):
     except OSError: pass
     os.makedirs(os.path.dirname(path), exist_ok=True); open(path, 'w').write(content)
 
-def build_decls(res, decls, tag, target_dir=None, quiet=False):
+def build_decls(res, decls, tag, target_dir=None, quiet=False, features=None):
     crate = os.path.join(WORK, tag)
     # a package name of its own per crate: cargo mixes up the freshness of equally named packages that share a target directory
     pkg = re.sub(r'[^a-z0-9_]', '_', tag.lower())
     put(os.path.join(crate, 'Cargo.toml'), open(os.path.join(V, 'harness', 'dc', 'Cargo.toml')).read().replace('name = "dc"', f'name = "{pkg}"'))
     put(os.path.join(crate, 'src', 'support.rs'), D.SUPPORT)
     put(os.path.join(crate, 'src', 'main.rs'), D.crate_source(decls))
-    return cargo_build(res, crate, pkg, target_dir=target_dir, quiet=quiet)
+    return cargo_build(res, crate, pkg, target_dir=target_dir, quiet=quiet, features=features)
 
-def find_bad_decl(res, decls, tag='dc_bisect'):
+def find_bad_decl(res, decls, tag='dc_bisect', features=None):
     """bisect for one declaration that does not compile on its own"""
     def builds(ds):
         tmp = Result(PROP, res.tier, res.seed)
-        ok = build_decls(tmp, ds, tag, quiet=True) is not None
+        ok = build_decls(tmp, ds, tag, quiet=True, features=features) is not None
         return ok, (tmp.broken[0][2] if tmp.broken else '')
     cur = list(decls); ok, err = builds(cur)
     if ok: return None
@@ -188,24 +188,49 @@ def main():
         for f in fs: dist['decl_' + f] = dist.get('decl_' + f, 0) + 1
     chunks = [decls[i:i + 100] for i in range(0, len(decls), 100)]
     results = {}
+    # every chunk twice: with the crate's default features, and with every feature that does not need a codec for the field types
+    # (generated setters, Debug on the diff types, the other hasher, the extra assertions): the cfg-dependent bounds and templates
+    # must accept the same declarations (C16 x C17)
+    configs = [(None, 'dc_main', 'default features'), (['dbg', 'gs', 'rh', 'da'], 'dc_feat', 'features debug_diffs + generated_setters + rustc_hash + debug_asserts')]
     for k, ch in enumerate(chunks):
+      for cfeat, ctag, cname in configs:
         tmp = Result(PROP, a.tier, a.seed)
-        exe = build_decls(tmp, ch, f'dc_main')
+        exe = build_decls(tmp, ch, ctag, features=cfeat, target_dir=os.path.join(WORK, 'target_' + ctag) if cfeat else None)
         if not exe:
-            found = find_bad_decl(res, ch)
+            found = find_bad_decl(res, ch, tag='dc_bisect' + ('_feat' if cfeat else ''), features=cfeat)
             if found:
                 (name, src, feats), err = found
-                res.oracle_fail.append({'group': 'declaration', 'case': src, 'what': f"ORACLE-FAIL the expansion of #[derive(Difference)] does not compile for declaration {name} (features {feats}): {err[:300]}", 'signature': f"does not compile: {feats}"})
+                res.oracle_fail.append({'group': 'declaration', 'case': src, 'what': f"ORACLE-FAIL the expansion of #[derive(Difference)] does not compile ({cname}) for declaration {name} (features {feats}): {err[:300]}", 'signature': f"does not compile: {feats}"})
             else:
-                res.add_broken('correspondence', 'declaration harness does not build', tmp.broken[0][2][:300] if tmp.broken else '')
+                res.add_broken('correspondence', f'declaration harness does not build ({cname})', tmp.broken[0][2][:300] if tmp.broken else '')
             continue
         rc, lines = run_lines([exe], timeout=900)
         srcs = {n: s for n, s, _ in ch}
         for l in lines:
             p = l.split(' ', 2)
-            results[p[0]] = p[1]
+            if cfeat is None: results[p[0]] = p[1]
+            dist['declarations_run_' + ('with_features' if cfeat else 'default')] = dist.get('declarations_run_' + ('with_features' if cfeat else 'default'), 0) + 1
             if p[1] != 'OK':
-                res.oracle_fail.append({'group': 'declaration', 'case': srcs.get(p[0], p[0]), 'what': f"ORACLE-FAIL declaration {p[0]}: {p[1]} {p[2][:300] if len(p) > 2 else ''}", 'signature': f"round trip / frame fails: {p[1]}"})
+                res.oracle_fail.append({'group': 'declaration', 'case': srcs.get(p[0], p[0]), 'what': f"ORACLE-FAIL declaration {p[0]} ({cname}): {p[1]} {p[2][:300] if len(p) > 2 else ''}", 'signature': f"round trip / frame fails: {p[1]}"})
+    # generic declarations over codec-encodable field types, under every feature at once and under the codecs alone
+    cd = D.codec_decls()
+    for cfeat, ctag, cname in ((['dbg', 'gs', 'rh', 'da', 'ns', 'sd'], 'dc_codec_all', 'all features'), (['ns', 'sd'], 'dc_codec', 'features nanoserde + serde'), (None, 'dc_codec_none', 'default features')):
+        tmp = Result(PROP, a.tier, a.seed)
+        exe = build_decls(tmp, cd, ctag, features=cfeat, target_dir=os.path.join(WORK, 'target_dc_feat'))
+        if not exe:
+            found = find_bad_decl(res, cd, tag='dc_bisect_codec', features=cfeat)
+            if found:
+                (name, src, feats), err = found
+                res.oracle_fail.append({'group': 'declaration', 'case': src, 'what': f"ORACLE-FAIL the expansion of #[derive(Difference)] does not compile ({cname}) for the generic declaration {name}: {err[:300]}", 'signature': f"does not compile: {feats}"})
+            else:
+                res.add_broken('correspondence', f'codec declaration harness does not build ({cname})', tmp.broken[0][2][:300] if tmp.broken else '')
+            continue
+        rc, lines = run_lines([exe], timeout=900)
+        for l in lines:
+            p = l.split(' ', 2)
+            dist['codec_generic_declarations_run'] = dist.get('codec_generic_declarations_run', 0) + 1
+            if p[1] != 'OK':
+                res.oracle_fail.append({'group': 'declaration', 'case': dict((n, s_) for n, s_, _ in cd).get(p[0], p[0]), 'what': f"ORACLE-FAIL generic declaration {p[0]} ({cname}): {p[1]} {p[2][:300] if len(p) > 2 else ''}", 'signature': f"round trip / frame fails: {p[1]}"})
     # known-bad constructs, each on its own
     def try_known(item):
         kid, (desc, src) = item
